@@ -527,14 +527,14 @@ class Gen:
     def funcdef(self, depth, name=None):
         """A function definition.  To keep runs inside the model (Python's recursion limit is not modelled) the call graph
         is acyclic: a prelude function fa/fb/fc may call only the prelude functions defined before it; functions defined
-        later (fd/fe, possibly re-defined) call only prelude functions."""
+        later (g/fe, possibly re-defined) call only prelude functions."""
         self.count('funcdef')
         nargs = self.rng.randint(0, 3)
         params = ['p', 'q', 'r'][:nargs]
         laa = nargs > 0 and self.rng.random() < 0.25
         prelude = ['fa', 'fb', 'fc']
         if name is None:
-            name = self.rng.choice(['fd', 'fe'])
+            name = self.rng.choice(['g', 'fe'])     # a one-character name too (F31)
             callable_here = [f for f in self.funcs if f[0] in prelude]
         else:
             callable_here = [f for f in self.funcs if f[0] in prelude and prelude.index(f[0]) < prelude.index(name)]
